@@ -16,8 +16,8 @@ from harness import stmt_wire as SW
 
 META = {
     "id": "C06",
-    "technique": "Coq proof (escape = _escape_string_literal - backslash, quote, LF / CR / TAB as letter escapes, every other control character as a three-digit octal escape - round-trips through a model of the g++ string-literal lexer for EVERY string, its image contains no control character, it is injective and agrees with the pre-repair function on strings without control characters, which in turn is shown to fail on a raw line end; the emitter's stitching order - with one prototype per function variant and ultrasonic helper after the globals - is sorted by section kind with one setup and one loop, declared-before-use of file-scope names holds under a guard that lets a function mention any function and any ultrasonic helper, in particular for a function that calls measure_distance() or a function defined further down, and is refuted for the order without prototypes; every assignment in the IR of the statement translator targets a variable visible under C++ block scoping, by induction over the translation incl. promotion and both rewriters, refuted for a setup-local introduced by a mixed tuple assignment; the header stitching includes the headers of every library class it instantiates, for every list of device declarations (Lang/Headers.v); the function-selection loop of parse() emits each (function, signature) once, only existing variants and every variant a recorded call resolves to, and no two definitions share name and C++ parameter list when the labels are those of _cpp_type's table (Lang/FnSelect.v); every device-call template of _emit_block keeps its helper locals in a block of its own, so any sequence of device calls in any block is free of redeclaration, and a whole function body is when the script's own declarations are (Lang/EmitScope.v: scope stack of C++ block scoping, LCD glyph arrays numbered by a counter that only grows); the global lines de-duplicated by text define no name twice when each name is always offered with one initialiser, refuted for a Servo bound twice with different limits (Lang/Globals.v)) + extracted-model correspondence with the real _escape_string_literal / _to_c_expr, with g++'s own lexer, with the section structure read back from the real emitted text, of the scoping verdict with g++, of the include list / library objects with the real text for the device declarations of the real IR, of the selected function variants with Program.functions for the real specialisation tables, and of the blocks and declarations of setup / loop / every user function that the emitter model produces for the real IR with those read back from the real text + the compiler as property oracle: the whole statement catalog (every device method with literal and run-time arguments, every statement that makes the transpiler invent a C++ name) twice in ONE block of every kind of block, reduced by ddmin to a minimal failing sequence; every accepted generated script inside the guard is compiled and linked with g++ against the mock core, every generated literal (printable or with control characters, NUL excepted) is printed by the firmware and compared with the Python value; the images of the real escape are compiled by g++ and read back byte by byte",
-    "level_text": "Theorems C06_* (coq/Props/C06.v) hold for all strings / all sketches / all programs of Gallina models (coq/Lang/Escape.v: escape and a lexer of one ordinary C++ string literal incl. line splicing and octal / hexadecimal escapes; coq/Lang/Sections.v: the emitter's stitching order incl. the generated prototypes, with defines/uses per top-level item; coq/Lang/Scope.v: C++ block scoping over the IR of coq/Lang/Transl.v, the model of the statement translator that unit C01_stmt ties to parser.py; coq/Lang/Headers.v: servo/LCD flags, library objects and includes as a fold over the top-level device declarations; coq/Lang/FnSelect.v: the selection loop over variants / recorded call signatures / aliases / primary signature and _cpp_type; coq/Lang/EmitScope.v: per IR node kind the blocks it opens and the names it declares, written from the branches of _emit_block, and the scope stack that decides 'declared twice in one scope'; coq/Lang/Globals.v: de-duplication of global lines by text). The models are run against the real functions and against g++ on generated inputs; the C++ type checker is not modelled - g++ itself decides, on every accepted script of a structured generator (devices x helpers x lists x functions incl. forward calls and measuring functions x control flow x string literals incl. control characters) restricted to the guard of the listed findings.",
+    "technique": "Coq proof (escape = _escape_string_literal - backslash, quote, LF / CR / TAB as letter escapes, every other control character as a three-digit octal escape - round-trips through a model of the g++ string-literal lexer for EVERY string, its image contains no control character, it is injective and agrees with the pre-repair function on strings without control characters, which in turn is shown to fail on a raw line end; the emitter's stitching order - with one prototype per function variant and ultrasonic helper after the globals - is sorted by section kind with one setup and one loop, declared-before-use of file-scope names holds under a guard that lets a function mention any function and any ultrasonic helper, in particular for a function that calls measure_distance() or a function defined further down, and is refuted for the order without prototypes; every assignment in the IR of the statement translator targets a variable visible under C++ block scoping, by induction over the translation incl. promotion and both rewriters, refuted for a setup-local introduced by a mixed tuple assignment; the header stitching includes the headers of every library class it instantiates, for every list of device declarations (Lang/Headers.v); the function-selection loop of parse() emits each (function, signature) once, only existing variants and every variant a recorded call resolves to, and no two definitions share name and C++ parameter list when the labels are those of _cpp_type's table (Lang/FnSelect.v); every device-call template of _emit_block keeps its helper locals in a block of its own, so any sequence of device calls in any block is free of redeclaration, and a whole function body is when the script's own declarations are (Lang/EmitScope.v: scope stack of C++ block scoping, LCD glyph arrays numbered by a counter that only grows); the global lines de-duplicated by text define no name twice when each name is always offered with one initialiser, refuted for a Servo bound twice with different limits (Lang/Globals.v); the table of names the parser refuses to declare - regenerated from the parser on every run - contains every keyword and alternative token of ISO C++17, setup / loop / main, the Arduino core identifiers the emitter writes and every A<digits>, so an accepted script declares none of them (Lang/Reserved.v); the exception classes emit() declares at file scope are exactly the classes some except clause of setup / loop / a function body names at any depth, each once, and the qualified name of the catch header is the declared path (Lang/ExcDecl.v)) + extracted-model correspondence with the real _escape_string_literal / _to_c_expr, with g++'s own lexer, with the section structure read back from the real emitted text, of the scoping verdict with g++, of the include list / library objects with the real text for the device declarations of the real IR, of the selected function variants with Program.functions for the real specialisation tables, and of the blocks and declarations of setup / loop / every user function that the emitter model produces for the real IR with those read back from the real text + the compiler as property oracle: the whole statement catalog (every device method with literal and run-time arguments, every statement that makes the transpiler invent a C++ name) twice in ONE block of every kind of block, reduced by ddmin to a minimal failing sequence; every accepted generated script inside the guard is compiled and linked with g++ against the mock core, every generated literal (printable or with control characters, NUL excepted) is printed by the firmware and compared with the Python value; the images of the real escape are compiled by g++ and read back byte by byte",
+    "level_text": "Theorems C06_* (coq/Props/C06.v) hold for all strings / all sketches / all programs of Gallina models (coq/Lang/Escape.v: escape and a lexer of one ordinary C++ string literal incl. line splicing and octal / hexadecimal escapes; coq/Lang/Sections.v: the emitter's stitching order incl. the generated prototypes, with defines/uses per top-level item; coq/Lang/Scope.v: C++ block scoping over the IR of coq/Lang/Transl.v, the model of the statement translator that unit C01_stmt ties to parser.py; coq/Lang/Headers.v: servo/LCD flags, library objects and includes as a fold over the top-level device declarations; coq/Lang/FnSelect.v: the selection loop over variants / recorded call signatures / aliases / primary signature and _cpp_type; coq/Lang/EmitScope.v: per IR node kind the blocks it opens and the names it declares, written from the branches of _emit_block, and the scope stack that decides 'declared twice in one scope'; coq/Lang/Globals.v: de-duplication of global lines by text; coq/Lang/Reserved.v: _check_identifier over the regenerated table; coq/Lang/ExcDecl.v: _exception_classes / _exception_class_decl over the IR tree as _nested_blocks sees it). The models are run against the real functions and against g++ on generated inputs; the C++ type checker is not modelled - g++ itself decides, on every accepted script of a structured generator (devices x helpers x lists x functions incl. forward calls and measuring functions x control flow x string literals incl. control characters) restricted to the guard of the listed findings.",
     "level_note": "Trusted: Coq kernel, extraction, OCaml driver, g++ 12 -std=gnu++17 and the mock Arduino core as the definition of 'compiles', harness/c06_sections.py (reads top-level items, defined and used names out of the emitted text), harness/c06_gen.py (script generator and the syntactic guard shapes_of). Theorems are about the models; what ties the whole transpiler to the property is the compiler oracle, a search, not a proof.",
     "design_ref": "DESIGN.md section 4 C06",
 }
@@ -532,6 +532,84 @@ def boundary_scripts():
     hoist = [x for x in first if x.split(" = ")[1].split("(")[0] in ("Led", "RGBLed", "DCMotor", "Button", "Potentiometer", "Ultrasonic", "Servo")]
     out.append((dimp + "\n".join(first) + "\nwhile True:\n" + "".join("    " + x + "\n" for x in hoist) + "".join("    " + u + "\n" for u in use),
                 {"boundary: hoistable device names bound before the loop AND at the top of the loop body": 1}))
+    out += repaired_boundary_scripts(head, tail)
+    return out
+
+
+RESERVED_SITES = {
+    "assignment at the top": "{N} = 3\nwhile True:\n    mon.write({N})\n    sleep(100)\n",
+    "first assignment in the main loop": "while True:\n    {N} = 3\n    mon.write({N})\n    sleep(100)\n",
+    "tuple assignment": "a, {N} = 1, 2\nwhile True:\n    mon.write(a)\n    sleep(100)\n",
+    "for variable": "for {N} in range(3):\n    sleep(1)\nwhile True:\n    sleep(100)\n",
+    "for variable in the main loop": "while True:\n    for {N} in range(2):\n        sleep(1)\n    sleep(100)\n",
+    "function name": "def {N}(x: int):\n    return x + 1\nv = {N}(2)\nwhile True:\n    mon.write(v)\n    sleep(100)\n",
+    "parameter": "def f(k: int, {N}: int):\n    return {N} + k\nv = f(2, 3)\nwhile True:\n    mon.write(v)\n    sleep(100)\n",
+    "local of a function": "def f(x: int):\n    {N} = x + 1\n    return {N}\nv = f(2)\nwhile True:\n    mon.write(v)\n    sleep(100)\n",
+    "first assignment inside if": "x = 3\nif x > 2:\n    {N} = 4\nwhile True:\n    sleep(100)\n",
+    "first assignment inside try": "x = 3\ntry:\n    {N} = 4\nexcept:\n    x = 5\nwhile True:\n    sleep(100)\n",
+    "comprehension variable": "vals = [{N} * 2 for {N} in range(3)]\nwhile True:\n    mon.write(len(vals))\n    sleep(100)\n",
+    "except target": "x = 1\ntry:\n    x = 2\nexcept ValueError as {N}:\n    x = 3\nwhile True:\n    mon.write(x)\n    sleep(100)\n",
+    "exception class": "x = 1\ntry:\n    x = 2\nexcept {N}:\n    x = 3\nwhile True:\n    mon.write(x)\n    sleep(100)\n",
+    "dotted exception class": "x = 1\ntry:\n    x = 2\nexcept errors.{N}:\n    x = 3\nwhile True:\n    mon.write(x)\n    sleep(100)\n",
+}
+# names next to the reserved ones: they are ordinary identifiers, the sketches must compile
+NEAR_RESERVED = ["double2", "Loop", "class_", "int_", "new1", "A0x", "delay_ms", "Setup", "high", "string", "serial", "floats", "a0", "B0", "main_loop"]
+
+
+def repaired_boundary_scripts(head, tail):
+    """the regions the guards of F-C06-literal-concat, F-C06-named-except and F-C06-cpp-keyword-identifier excluded until their repair,
+    smallest scripts first"""
+    import keyword
+    out = []
+    t = 't = analog_read("A0") > 300\n'
+    concat = {
+        "two literals": 'm = "a" + "b"\nwhile True:\n    mon.write(m)\n    sleep(100)\n',
+        "choice + literal": t + 'mon.write(("a" if t else "b") + "c")\n' + tail,
+        "literal + choice": t + 'mon.write("x" + ("a" if t else "b"))\n' + tail,
+        "choice + choice": t + 'm = ("a" if t else "b") + ("c" if not t else "d")\nmon.write(m)\n' + tail,
+        "nested choice": t + 'm = ("a" if t else ("b" if not t else "c")) + "d"\nmon.write(m)\n' + tail,
+        "chain to the left": 'mon.write("x" + "y" + "z")\n' + tail,
+        "chain to the right": 'mon.write("x" + ("y" + "z"))\n' + tail,
+        "f-string without fields": 'mon.write(f"lit" + "z")\nmon.write("z" + f"lit")\n' + tail,
+        "next to a String": 's = str(3)\nmon.write(("a" + "b") + s)\nmon.write(s + ("a" + "b"))\n' + tail,
+        "empty literals": 'm = "" + ""\nmon.write(m)\n' + tail,
+        "augmented": 'm = "a"\nm += "b" + "c"\nmon.write(m)\n' + tail,
+        "in the main loop": 'while True:\n    m = "a" + "b"\n    mon.write(m)\n    sleep(100)\n',
+        "in a function": 'def tag():\n    return "a" + "b"\nwhile True:\n    mon.write(tag())\n    sleep(100)\n',
+        "argument of len and str": 'mon.write(len("a" + "b"))\nmon.write(str("a" + "b"))\n' + tail,
+        "in a list": 'names = ["a" + "b", "c"]\nmon.write(names[0])\n' + tail,
+        "int of a choice": t + 'mon.write(int("12" if t else "13"))\n' + tail,
+        "float of a choice": t + 'mon.write(float("1.5" if t else "2.5"))\n' + tail,
+        "int of a nested choice": t + 'n = int("1" if t else ("2" if not t else "3"))\nmon.write(n)\n' + tail,
+        "int of an f-string without fields": 'mon.write(int(f"12"))\n' + tail,
+        "int of a concatenation": 'mon.write(int("1" + "2"))\n' + tail,
+    }
+    for k, body in concat.items():
+        out.append((head + body, {"boundary: literal concatenation, " + k: 1}))
+    handlers = {
+        "named": "except ValueError:\n", "named with a target": "except ValueError as err:\n", "Exception": "except Exception:\n",
+        "dotted": "except errors.Timeout:\n", "dotted with a target": "except pkg.sub.Failure as err:\n",
+    }
+    for k, h in handlers.items():
+        out.append((head + "x = 3\ntry:\n    x = 4\n" + h + "    x = 5\n" + "while True:\n    mon.write(x)\n    sleep(100)\n", {"boundary: except handler " + k + ", setup": 1}))
+        out.append((head + "while True:\n    x = 3\n    try:\n        x = 4\n    " + h + "        x = 5\n    mon.write(x)\n    sleep(100)\n", {"boundary: except handler " + k + ", main loop": 1}))
+        out.append((head + "def f(x: int):\n    try:\n        x = x + 1\n    " + h + "        x = 0\n    return x\nv = f(2)\n" + tail, {"boundary: except handler " + k + ", function": 1}))
+    out.append((head + "x = 3\ntry:\n    x = 4\nexcept ValueError:\n    x = 5\nexcept KeyError as err:\n    x = 6\nexcept errors.Timeout:\n    x = 7\nexcept errors.Busy:\n    x = 8\nexcept:\n    x = 9\n" + tail,
+                {"boundary: five handlers, two classes of one package": 1}))
+    out.append((head + "def f(x: int):\n    try:\n        x = x + 1\n    except ValueError:\n        x = 0\n    return x\nv = 0\ntry:\n    v = f(2)\nexcept ValueError as err:\n    v = 1\n"
+                + "while True:\n    try:\n        v = f(v)\n    except ValueError:\n        v = 2\n    for i in range(2):\n        try:\n            v = v + 1\n        except TypeError:\n            v = 3\n    sleep(100)\n",
+                {"boundary: one exception class named in setup, loop, a function and a nested block": 1}))
+    names = sorted(n for n in G.REJECTED_NAMES if not keyword.iskeyword(n))
+    sites = list(RESERVED_SITES.items())
+    for i, n in enumerate(names):                       # every reserved name at one site (rotating) ...
+        k, body = sites[i % len(sites)]
+        out.append((head + body.format(N=n), {"boundary: reserved name, " + k: 1}))
+    for n in ["double", "int", "new", "loop", "setup", "delay", "HIGH", "A0", "String", "min", "register", "union"]:   # ... and some at every site
+        for k, body in sites:
+            out.append((head + body.format(N=n), {"boundary: reserved name, " + k: 1}))
+    for i, n in enumerate(NEAR_RESERVED):                 # ordinary identifiers next to them
+        for k, body in [sites[(i * 5) % len(sites)]]:
+            out.append((head + body.format(N=n), {"boundary: name next to a reserved one, " + k: 1}))
     return out
 
 
@@ -1087,6 +1165,137 @@ def part_scope(ctx, dist):
             dist["scope:compiled"] += 1
     return n_eval
 
+# ------------------------------------------------------------------ J. reserved identifiers (Lang/Reserved.v vs parser._check_identifier)
+def part_reserved(ctx, dist):
+    import keyword
+    rng = ctx.rng
+    thorough = ctx.tier == "thorough"
+    names = set(G.REJECTED_NAMES) | set(G.LIBC_NAMES) | set(NEAR_RESERVED) | set(G.VAR_POOL) | set(G.FN_POOL) | set(keyword.kwlist)
+    for n in list(names):
+        names.update({n + "_", "_" + n, n + "1", n[:-1], n[1:], n.swapcase(), n.capitalize(), n + n, n.upper(), n.lower()})
+    names.update("A" + str(k) for k in list(range(0, 24)) + [99, 100, 255, 1000])
+    names.update(["A", "A00", "A007", "A0x", "Ax0", "a0", "AA0", "A_0", "B0", "A0_", "0A", "A 0", "A-1", "", " ", "x", "__redu_len", "__state_led"])
+    for _ in range(3000 if thorough else 400):
+        k = rng.random()
+        if k < 0.3:
+            names.add("A" + "".join(rng.choice("0123456789") for _ in range(rng.randint(1, 6))))
+        elif k < 0.5:
+            names.add("A" + "".join(rng.choice("0123456789abx_") for _ in range(rng.randint(1, 4))))
+        else:
+            names.add("".join(rng.choice("abcdefghilnorstuwxy_AEHILOPRSTU0123456789") for _ in range(rng.randint(1, 9))))
+    names = sorted(n for n in names if n.isascii())
+    got = impl("check_ident", names=[cps(n) for n in names])
+    n_eval = 0
+    if all(g is None for g in got):
+        dist["reserved:parser has no _check_identifier"] += 1
+    if ctx.exe:
+        m = ctx.model([[10, names]])[0]
+        if m[0] != 0 or len(m[1]) != len(names):
+            ctx.disagree("reserved identifiers: the model rejects the wire case", names[:5], m, None)
+            return 0
+        for n, mr, g in zip(names, m[1], got):
+            n_eval += 1
+            real = 0 if g is None else g
+            dist["reserved:" + ("reserved" if mr else "free")] += 1
+            if real not in (0, 1) or real != mr:
+                ctx.disagree("reserved identifiers: Lang/Reserved.v vs parser._check_identifier (1 = ValueError)", {"name": n}, mr, g)
+        # theorem C06_check_all_meaning / C06_one_reserved_rejects, executed: a list is accepted iff none of its names is reserved
+        lists = [[rng.choice(names) for _ in range(rng.randint(0, 6))] for _ in range(400 if thorough else 120)]
+        res = {n: r for n, r in zip(names, m[1])}
+        for l, o in zip(lists, ctx.model([[10, l] for l in lists])):
+            n_eval += 1
+            if o[0] != 0 or o[2] != (0 if any(res[n] for n in l) else 1):
+                ctx.disagree("extracted check_all contradicts theorem C06_check_all_meaning (extraction or wire bug)", l, o, None)
+    return n_eval
+
+
+# ------------------------------------------------------------------ K. exception classes (Lang/ExcDecl.v vs emitter._exception_classes / emit())
+EXC_POOL = ["ValueError", "Exception", "KeyError", "TypeError", "E1", "errors.Timeout", "errors.Busy", "pkg.sub.Failure", "pkg.Other", "a.B"]
+
+
+def gen_exc_tree(rng, depth):
+    def nodes(d, lo=0):
+        return [node(d) for _ in range(rng.randint(lo, 3 if d > 0 else 1))]
+
+    def node(d):
+        k = rng.random()
+        if d <= 0 or k < 0.25:
+            return [1, []]
+        if k < 0.65:
+            # what Python's grammar allows: at least one handler, a handler without a class only as the last one
+            hs = [[1, rng.choice(EXC_POOL), nodes(d - 1)] for _ in range(rng.randint(0, 3))]
+            if not hs or rng.random() < 0.3:
+                hs.append([0, "", nodes(d - 1)] if rng.random() < 0.85 else [1, "", nodes(d - 1)])
+            return [0, nodes(d - 1), hs]
+        return [1, [nodes(d - 1) for _ in range(rng.choice([1, 1, 2, 2, 3]))]]
+    return nodes(depth)
+
+
+def part_exc(ctx, dist):
+    rng = ctx.rng
+    thorough = ctx.tier == "thorough"
+    cases = [[[], [], []], [[[0, [], [[1, "ValueError", []]]]], [], []], [[], [[0, [], [[1, "ValueError", []], [1, "KeyError", []], [1, "ValueError", []]]]], []],
+             [[[0, [], [[1, "a.B", []]]]], [[0, [], [[1, "a.C", []]]]], [[[0, [], [[1, "a.B", []], [0, "", []]]]]]]]
+    for _ in range(600 if thorough else 90):
+        cases.append([gen_exc_tree(rng, rng.randint(0, 3)), gen_exc_tree(rng, rng.randint(0, 3)),
+                      [gen_exc_tree(rng, rng.randint(0, 2)) for _ in range(rng.choice([0, 0, 1, 2]))]])
+    got = impl("exc_classes", cases=[_cps_tree(c) for c in cases])
+    mo = ctx.model([[11] + c for c in cases]) if ctx.exe else [None] * len(cases)
+    n_eval = 0
+    to_compile = []
+    for c, g, m in zip(cases, got, mo):
+        n_eval += 1
+        if not g["ok"]:
+            ctx.disagree("exception classes: the real emit() fails on an IR built from TryStatement / IfStatement / WhileLoop / ForRangeLoop / Sleep", c, "emits", g)
+            continue
+        decls = ["".join(chr(x) for x in d) for d in g["decls"]]
+        catches = ["".join(chr(x) for x in d) for d in g["catches"]]
+        dist["exception classes declared:" + str(min(len(decls), 4))] += 1
+        # oracle on the real text (no model): every class a catch header names is declared by exactly one line, above setup()
+        for h in catches:
+            if h == "...":
+                continue
+            q = h.split("&")[0].strip()
+            want = q.split("::")
+            hits = [d for d in decls if re.findall(r"(?:namespace|struct) (\w+)", d) == want]
+            if len(hits) != 1:
+                ctx.fail("a catch header names a class that is not declared exactly once at file scope", {"ir": c, "catch": h, "declarations": decls},
+                         "one declaration of " + q, hits, key="exception-class-undeclared")
+        if len(to_compile) < (120 if thorough else 24) and decls:
+            to_compile.append((c, g["cpp"]))
+        if m is None:
+            continue
+        if m[0] != 0:
+            ctx.disagree("exception classes: the model rejects the wire case", c, m, None)
+            continue
+        m_classes = [C.wstr(x) for x in m[1]]
+        m_decls = [C.wstr(x) for x in m[2]]
+        m_quals = {C.wstr(x) for x in m[3]}
+        if g["classes"] is not None and m_classes != ["".join(chr(x) for x in d) for d in g["classes"]]:
+            ctx.disagree("exception classes: Lang/ExcDecl.v (program_classes) vs emitter._exception_classes", c, m_classes, g["classes"])
+        if m_decls != decls:
+            ctx.disagree("exception classes: declarations of the model (class_decl) vs the struct / namespace lines of the real emit()", c, m_decls, decls)
+        real_quals = {h.split("&")[0].strip() for h in catches if h != "..."}
+        if real_quals != m_quals:
+            ctx.disagree("exception classes: qualified names in the catch headers vs dots_to_colons of the declared classes", c, sorted(m_quals), sorted(real_quals))
+    comp = fw.run_sketches([{"cpp": cpp, "compile_only": True} for _, cpp in to_compile])
+    for (c, cpp), r in zip(to_compile, comp):
+        n_eval += 1
+        if not r["compiled"]:
+            ctx.fail("sketch emitted for an IR with named except clauses does not compile", {"ir": c, "cpp": cpp, "errors": re.findall(r"error: .*", r["compile_log"])[:5]},
+                     "g++ -std=gnu++17 compiles and links", "g++ error", key="exc:" + err_key(r["compile_log"]))
+    dist["exception classes: sketches compiled"] = len(comp)
+    return n_eval
+
+
+def _cps_tree(v):
+    if isinstance(v, str):
+        return cps(v)
+    if isinstance(v, list):
+        return [_cps_tree(x) for x in v]
+    return v
+
+
 # ------------------------------------------------------------------ E. listed findings
 def replay_finding(ctx, f, consts, dist, explain=False):
     """-> truthy iff the witness still violates the property on the real code (explain: (expected, observed))"""
@@ -1152,6 +1361,8 @@ def run(ctx: C.Ctx):
     n5 = part_scope(ctx, dist); lap("F user-variable scoping")
     n6, pair_batch = part_pairs(ctx, dist, samples); lap("H same-block sequences")
     n6 += check_scopes(ctx, [(src, r, c) for _, src, r, c in pair_batch], dist, consts); lap("I scopes of the sequences")
+    n7 = part_reserved(ctx, dist); lap("J reserved identifiers")
+    n8 = part_exc(ctx, dist); lap("K exception classes")
 
     for f in local_findings(ctx):
         if f.get("kind") == "fixed":
@@ -1167,9 +1378,9 @@ def run(ctx: C.Ctx):
             ctx.disagree("listed finding's witness is inside the executable guard", {"script": w}, "outside", "inside")
 
     ctx.coverage.update({
-        "evaluations": n1 + n2 + n3 + n4 + n5 + n6,
+        "evaluations": n1 + n2 + n3 + n4 + n5 + n6 + n7 + n8,
         "distinct_nontrivial": nt1 + nt4,
-        "rule": "fixed findings: the four witnesses recorded as fixed are replayed first (a failure is a VIOLATION with the witness as replay). "
+        "rule": "fixed findings: every witness recorded as fixed (ten, three of them - literal concatenation, named except, reserved identifier - since this repair) is replayed first (a failure is a VIOLATION with the witness as replay). "
                 "A: escape on special strings + all 1/2-character strings over a 21-symbol boundary alphabet (incl. LF, CR, TAB, NUL, 0x01, 0x1f, DEL, digits) + all 3-character strings over 8 symbols + every code point below 256 alone and in front of 0 7 8 a f backslash quote LF + seeded strings, half printable (ASCII incl. quote/backslash/?, Unicode), half with control characters mixed in (often right before a digit / hex digit / backslash / quote) (model vs _escape_string_literal; the real output lexed by the model lexer must give back the string - for EVERY string; the three escape call sites of _to_c_expr). "
                 "B: C++ literal bodies built from plain characters, simple/octal/hex escapes, trigraph-like sequences, line splices, non-ASCII: model lexer vs the bytes g++ stores; plus the images of the REAL escape (special strings, every code point below 256 followed by the digit 7, a sample of the strings with control characters): g++ must store exactly the UTF-8 bytes of the Python string (oracle). "
                 "C: strings (half of them with control characters; NUL excepted) in 11 script contexts (write, variable, list element, function argument, f-string, concatenation, +=, return value of a helper, arm of a conditional expression, comparison with a second spelling of the literal, text / label arguments of LCD calls) transpiled, compiled, run; the printed lines must be the Python value followed by CR LF as the mock's Serial cuts it into lines (split at LF, one CR before the LF dropped - so a CR directly in front of a LF is the one thing this oracle cannot see; parts A and B can). "
@@ -1177,11 +1388,13 @@ def run(ctx: C.Ctx):
                 "H: harness/c06_pairs.py - a catalog of ~130 statement shapes (every method of Led, RGBLed, Buzzer, Servo, DCMotor, LCD (parallel with backlight pin and I2C), SerialMonitor, Core, sensors with all-literal and with run-time arguments, optional arguments present / absent; tuple assignments all-new / swap / rotate, list literal / comprehension / append / remove / len / index (a subscript assignment is rejected by the transpiler since the repair of the silent drops), calls, for / while / if / elif / try with names promoted out of them, augmented assignments, in functions the re-assignment of the parameter) put TWICE (second copy shuffled, fresh Python names) into ONE block of each of 13 kinds (setup, loop, function body, if / elif / else arm, for, while, try, except, if inside a function, for inside if, loop body below devices declared at its top): every pair of shapes and every shape with itself share one C++ scope; g++ is the oracle, a failing sequence is reduced by ddmin and the minimal script is the replay (evaluations count the pairs); thorough: 6 more rounds per context with three shuffled copies cut at a random length. "
                 "I: every compiled script of D and H: each function of the real text is read back into blocks / header declarations / declarations (harness/c06_scope.py), the extracted scope stack decides whether a name is declared twice in one scope (oracle, cross-checked with g++'s 'redeclaration' errors in both directions), and the extracted emitter model run on the real IR (node kinds + the attributes that decide the template: literal vs run-time durations, empty pattern, known melody / LCD / button) must reproduce blocks and declared names of setup, loop and every user function exactly (declaration-free blocks pruned on both sides). "
                 "F: statement-fragment programs (harness/progen.py feature sets + 34 scoping boundary templates: all-new / mixed / all-old tuple assignments at every level, names first bound in branches and loops, for variables re-bound after the loop) through the extracted Lang.Transl + Lang.Scope and through the real transpiler + g++: the theorem's conclusion is re-checked on the extracted model, and a target the model finds invisible must make g++ fail with 'not declared'. "
+                "J: Lang/Reserved.v (table regenerated from parser._CPP_RESERVED_NAMES, rule probed on the real function by the translator) against parser._check_identifier on every name of the harness's own lists (C++ keywords, core names, C library names, generator pools), their mutilations (prefix, suffix, case, one character less), A<digits> of every length and random ASCII identifiers; check_all executed on random name lists. The region itself is searched by D: repaired_boundary_scripts declares every reserved name at one of 14 declaration sites (assignment, main loop, tuple, for variable, function name, parameter, local, inside if / try, comprehension, except target, exception class, dotted class) and twelve names at every site - an accepted script must compile -, plus 20 shapes of literal concatenation / int() of a choice and every except-handler form in setup, main loop and a function. "
+                "K: random IR trees (TryStatement with 0-3 handlers with / without class, dotted classes, the same class several times; IfStatement / WhileLoop / ForRangeLoop / Sleep around them; depth <= 3) for setup, loop and 0-2 function bodies, built from the real IR classes and put through the real emit(): emitter._exception_classes = program_classes of Lang/ExcDecl.v, the struct / namespace lines of the text = class_decl of each in that order, the qualified names of the catch headers = dots_to_colons of the declared classes; oracle on the real text: every class a catch header names is declared by exactly one line, and a sample of the sketches is compiled by g++. "
                 "distinct non-trivial = strings that need escaping + distinct (section-kind multiset, helper set) signatures of compiled scripts",
         "samples": samples[:4],
         "timing_s": timing,
         "distribution": {k: v for k, v in sorted(dist.items(), key=lambda kv: str(kv[0]))},
-        "guard": "strings: none (every string; the device-value oracle of part C leaves out NUL, which a C string cannot carry). scripts: c06_gen.shapes_of(script) is empty - (lcd.animate() inside a function is generated since repair 17b67c1; `**` is rejected by the transpiler since repair c223eb4) no call of a function defined further down unless that function evidently returns an int or nothing, no '**', no 'except <Name>', no '+' of two string literals, no C++ keyword / Arduino core name as a Python identifier, no top-level tuple assignment mixing new and old names, no for variable mentioned after its loop, no comprehension over anything but range(...) (a for STATEMENT over a list is rejected by the transpiler since the repair of the silent drops and is generated), no un-annotated parameter re-bound to a string-valued expression, no string / float literal passed to an un-annotated parameter outside an assignment or return value, no function above an RGBLed whose on/off/blink/toggle it calls, no Servo / Buzzer name bound twice with different arguments besides the pin; plus generator invariants: type-correct Python, one type class per variable name, list.append/remove arguments of the element type, a helper with two real overloads has one numeric and one String overload and is called only as the right-hand side of an assignment, a helper whose un-annotated parameter is used as a list is called once in an assignment. Function theorem C06_fn_no_redefinition_partial: all labels in _cpp_type's table. Redeclaration theorem C06_emit_no_redeclaration_partial: the declarations the script itself causes (locals, for variables, catch targets, parameters, button polls) are free of redeclaration (the parser's bookkeeping; checked by g++ and the scope oracle, not proved). Globals theorem: every name always offered with the same initialiser. Scoping theorem: setup() has no top-level local declaration (for loop()), targets of augmented assignments not checked",
+        "guard": "strings: none (every string; the device-value oracle of part C leaves out NUL, which a C string cannot carry). scripts: c06_gen.shapes_of(script) is empty - (lcd.animate() inside a function is generated since repair 17b67c1; `**` is rejected by the transpiler since repair c223eb4) no call of a function defined further down unless that function evidently returns an int or nothing, no '**', no except clause with a tuple of classes ('except <Name>', also dotted and with a target, is generated since the repair of F-C06-named-except), ('+' of two string literals is generated since the repair of F-C06-literal-concat), no name of the C library (c06_gen.LIBC_NAMES) as a Python identifier (a C++ keyword / sketch entry point / Arduino core name as a Python identifier is generated since the repair of F-C06-cpp-keyword-identifier: rejected, or it compiles), no top-level tuple assignment mixing new and old names, no for variable mentioned after its loop, no comprehension over anything but range(...) (a for STATEMENT over a list is rejected by the transpiler since the repair of the silent drops and is generated), no un-annotated parameter re-bound to a string-valued expression, no string / float literal passed to an un-annotated parameter outside an assignment or return value, no function above an RGBLed whose on/off/blink/toggle it calls, no Servo / Buzzer name bound twice with different arguments besides the pin; plus generator invariants: type-correct Python, one type class per variable name, list.append/remove arguments of the element type, a helper with two real overloads has one numeric and one String overload and is called only as the right-hand side of an assignment, a helper whose un-annotated parameter is used as a list is called once in an assignment. Function theorem C06_fn_no_redefinition_partial: all labels in _cpp_type's table. Redeclaration theorem C06_emit_no_redeclaration_partial: the declarations the script itself causes (locals, for variables, catch targets, parameters, button polls) are free of redeclaration (the parser's bookkeeping; checked by g++ and the scope oracle, not proved). Globals theorem: every name always offered with the same initialiser. Scoping theorem: setup() has no top-level local declaration (for loop()), targets of augmented assignments not checked",
         "unmodelled": ["the C++ type checker (template deduction in the list helpers, String overloads, implicit conversions): decided by g++ only",
                        "AVR specifics: <cstring> in the len helper, 16-bit int, PROGMEM; the mock is a hosted g++ 12 with the mock core",
                        "universal character names, GNU escapes, numeric escapes > 255, -trigraphs / -std=c++NN modes (the lexer model answers None)",
